@@ -117,4 +117,16 @@ reclaim('C19', None, 'Premises: good_entry (no ASCII or Unicode white space), di
 reclaim('C20', None, 'typed_rt_float proves that the repr token passes through and classifies as a float; float(repr(x)) == x is trusted. ~3% of fuzzed literal strings (quoted strings, containers) are CUnmodelled: excluded from the model comparison and counted per class in the evidence; known-finding keys require the specific observed outcome.')
 reclaim('C02', 'Termination in positive form: run_succeeds (scene built + enough fuel => Ok), fuel_exec_suffices (the executable fuel 20000 covers 141 retained atoms), near monotone from level 1 for Z and R.', None)
 reclaim('C06', None, 'Known-finding key requires the exact known outcome; Pearson entries with a constant non-zero operand (0/0) are masked and counted; non-dyadic float stream compared at 1e-9.')
+SRC_NOTE = ('Source-derived obligations (Properties/%sSrc.v): the formulas/constants of the hand-written model are re-derived from the SOURCE TEXT on every run by a fail-closed ast translator (%s -> Gen/%s) '
+            'and proved equal to the model; a changed formula breaks a proof obligation. If the translator cannot read a rewritten function these obligations are reported as not attempted '
+            '(WARNING + note in the evidence) and the correspondence of that run is deepened; trusted: the translator\'s table of opaque parameters.')
+reclaim('C02', 'Source tie: invariants_match_source (order and composition of the Daylight and RDKit atom invariants), unsigned_matches_source, hash_input_matches_source, sort_keys_match_source, level_cap_matches_source.',
+        SRC_NOTE % ('C02', 'harness/facts_m1src.py', 'M1Source.v'))
+reclaim('C06', 'Source tie (14 theorems, axiom-free): fp_tanimoto/dice/cosine/pearson/soergel/mean/std_match(es)_source, arr_ and sp_tanimoto_dice_match_source, sp_cosine_matches_source, and the step/merge/tail/finish '
+        'equations of the dense and sparse Soergel kernels; stated with == and proved by ring/field so that algebraically equivalent rewrites of the Python expression still pass.',
+        SRC_NOTE % ('C06', 'harness/facts_metricsrc.py', 'MetricsSource.v') + ' Python arithmetic is modelled in Base/PyExpr.v (option Q: None = ZeroDivisionError; nan_to_num; (num, den^2) for square roots).')
+reclaim('C08', None, SRC_NOTE % ('C08', 'harness/facts_dbio.py', 'DbIOFacts.v') + ' (theorem source_constants).')
+reclaim('C01', 'Search streams added after seeded rounds 3-4: all 24 (48 with stereo off) signed axis permutations - exact in floating point - of flat and gridded molecules run on the implementation; molecules scaled so that one '
+        'pair distance is a relative 1e-3..1e-7 away from a shell radius (far outside round-off, sensitive to any lab-frame snapping of coordinates).', None)
+reclaim('C04', 'Histories switch between twins of one compound (copy, renumbered, reversed atom order); the same jobs incl. molecules with bond types outside the table are submitted in different orders to fresh interpreters.', None)
 reclaim('C16', 'No hypothesis on the history; fault enumeration covers update_props(append=True) with mixed fresh/extended columns, from_array with a wrong number of names, columns declared on an empty database.', None)
